@@ -56,20 +56,304 @@ RULE = ("schedules = lists of thread ids, one entry = run that real thread to it
         "has not signed before the roll-over; same / different entityid), roll-back (k0,k1,k0 with one time stamp), two "
         "paths exchanging their pairs, seeded random scripts; the entities built before and after then sign "
         "concurrently and every signature is verified under the certificate each entity itself publishes "
-        "(sec.my_cert).  non-trivial (pool) = an OS thread serves two entities, or a path is re-installed")
+        "(sec.my_cert).  CONFIGURATION OBJECTS (lineage cases): the Config an entity is built from is derived from the "
+        "Config (or the dict) of another live entity - copy.copy + own key_file/cert_file, reload of the updated dict, the "
+        "very object re-pointed; complete over {Saml2Client, Server} x {copy, reload, re-point} x {derived after / before "
+        "the parent entity is built} x {other path, same path rolled over, same path same pair}; seeded: "
+        "security_context(parent) in between, parent signed before, same / own entityid, chains A->B->C with the root "
+        "re-pointed last, one object walking k0,k1,k0, random scripts.  non-trivial (pool) = an OS thread serves two "
+        "entities, or a path is re-installed, or a configuration object is derived / re-pointed")
 TRUSTED = ["deterministic scheduler + gate wrappers / trace hooks in harness/c20.py (one worker runs at a time; switches "
            "only at gates, or at line / bytecode events in the fine modes)",
            "reference signatures / certificate verification done with the `cryptography` package directly",
            "identification of a signature value with (key, digest, octets) by byte equality with the reference",
            "deployment steps carried out by harness/c20.py (files written / renamed / symlinked, os.utime); a published "
-           "certificate is identified with a fixture key pair by equality of its base64 body"]
+           "certificate is identified with a fixture key pair by equality of its base64 body",
+           "source-to-Gallina translator v2 harness/py2coq2.py + coq/theories/Base/Py2.v (its trusted base: notes/translator_v2.md) "
+           "and the specs in harness/c20.py:src2_items.  Re-translated from the CURRENT text on every run into coq/gen/C20Src2.v "
+           "and proved equal to the model for all inputs (c20_source2_*): sigver.RSACrypto.get_signer (with the module table "
+           "SIGNER_ALGS read from the text; every SigAlg str, with / without sigkey), sigver.RSASigner.sign (no key argument / "
+           "explicit key), sigver.RSASigner.verify, pack.http_redirect_message (theorem: sign=True, typ SAMLRequest / SAMLResponse; "
+           "SIG_ALLOWED_ALG, REQ_ORDER, RESP_ORDER read from the text), config.Config.getattr (theorem: context '' and context "
+           "None), sigver.security_context (theorem: crypto_backend xmlsec1 with an existing xmlsec_binary and a key_file; any "
+           "further attributes on the Config object; the Config object is returned unchanged).  Pinned by text (ast) instead of "
+           "translated: RSASigner.__init__, Signer.__init__, RSACrypto.__init__ (replaced by object displays), the "
+           "sec_backend / my_cert / key_file / cert_file / crypto / metadata assignments of SecurityContext.__init__, the "
+           "None defaults of get_signer(sigkey) and sign(key)",
+           "hypotheses of the c20_source2 theorems about external calls: key_sign / key_verify are an ideal scheme on str "
+           "messages and raise on a None key; urlencode, deflate_and_base64_encode, add_query, base64.b64encode, str.encode "
+           "return a str and do not raise; os.path.exists(xmlsec_binary) is True; _get_xmlsec_cryptobackend returns an object; "
+           "import_rsa_key_from_file / read_cert_from_file return the content installed at the path at the moment of the "
+           "call (Model.fread) or raise OSError"]
 ASSUMPTIONS = ["ideal signatures (hypothesis of c20_own_key; real RSA PKCS#1 v1.5 is executed in the correspondence)",
                "the model's atomic step is gate-to-gate: pre-emption inside get_signer/sign/verify or between two gates is "
                "not in the model; the correspondence exhibits it only by the line/bytecode samples (notes/C20.md)",
                "XML signatures (xmlsec1 path, key file per call) are outside this mechanism",
                "the model has no per-OS-thread state and reads key/certificate files by content at construction only "
                "(what the anchored code does); both are exhibited by the pool / deployment cases, the deployment script "
-               "itself runs before the pool threads start (no installation concurrent with signing)"]
+               "itself runs before the pool threads start (no installation concurrent with signing)",
+               "a configuration object is, for the model, the path it names at the moment an entity is built from it (its "
+               "origin and history are irrelevant: c20_config_origin_irrelevant); exhibited by the lineage cases.  Config "
+               "objects are derived by copy.copy / dict reload / re-pointing only (copy.deepcopy of a loaded Config fails in "
+               "the unchanged library: its MetadataStore holds an RSA key object); configurations loaded from python "
+               "modules (config_file=, importlib cache) are not exercised"]
+
+
+
+# ------------------------------------------------------------------------------------ translator v2: source tie
+def _src(*p):
+    return os.path.join(env.SRC, "saml2", *p)
+
+
+def _module_tree(path):
+    import ast
+
+    with open(path) as f:
+        return ast.parse(f.read())
+
+
+def _module_assign(tree, name):
+    import ast
+    from harness.py2coq2 import Untranslatable
+
+    hits = [n for n in tree.body if isinstance(n, ast.Assign) and len(n.targets) == 1
+            and isinstance(n.targets[0], ast.Name) and n.targets[0].id == name]
+    if len(hits) != 1:
+        raise Untranslatable("module constant %s: %d top-level assignments" % (name, len(hits)))
+    for n in ast.walk(tree):        # a table that is also assigned / mutated elsewhere in the module is not a constant
+        if n not in hits and isinstance(n, (ast.Assign, ast.AugAssign, ast.AnnAssign, ast.Delete)):
+            tg = n.targets if isinstance(n, (ast.Assign, ast.Delete)) else [n.target]
+            for t in tg:
+                base = t
+                while isinstance(base, (ast.Subscript, ast.Attribute)):
+                    base = base.value
+                if isinstance(base, ast.Name) and base.id == name:
+                    raise Untranslatable("module constant %s is written at line %d" % (name, n.lineno))
+        if isinstance(n, ast.Global) and name in n.names:
+            raise Untranslatable("module constant %s is declared global at line %d" % (name, n.lineno))
+    return hits[0].value
+
+
+def _const_eval(tree, node):
+    """str constants, names of module-level str/tuple constants of `tree`, tuples of these"""
+    import ast
+    from harness.py2coq2 import Untranslatable
+
+    if isinstance(node, ast.Constant) and isinstance(node.value, str):
+        return node.value
+    if isinstance(node, ast.Tuple):
+        return tuple(_const_eval(tree, x) for x in node.elts)
+    if isinstance(node, ast.Name):
+        return _const_eval(tree, _module_assign(tree, node.id))
+    raise Untranslatable("constant expression %s" % ast.dump(node)[:80])
+
+
+def sig_allowed_term():
+    """SIG_ALLOWED_ALG of xmldsig/__init__.py as it reads now -> pyval term (tuple of (short, long) pairs)"""
+    from harness.py2coq2 import cstr
+
+    tree = _module_tree(_src("xmldsig", "__init__.py"))
+    v = _const_eval(tree, _module_assign(tree, "SIG_ALLOWED_ALG"))
+    return "(PList [%s])" % "; ".join("PList [PStr %s; PStr %s]" % (cstr(a), cstr(b)) for a, b in v)
+
+
+def signer_algs_term():
+    """SIGNER_ALGS of sigver.py as it reads now -> pyval term: a dict  SigAlg URI -> RSASigner object.  Every value
+    must read RSASigner(<...>.hashes.NAME()) - digest NAME, key left at its default, which must be None."""
+    import ast
+    from harness.py2coq2 import Untranslatable, cstr, find_function
+
+    tree = _module_tree(_src("sigver.py"))
+    xtree = _module_tree(_src("xmldsig", "__init__.py"))
+    d = _module_assign(tree, "SIGNER_ALGS")
+    if not isinstance(d, ast.Dict):
+        raise Untranslatable("SIGNER_ALGS is not a dict display")
+    init = find_function(tree, "RSASigner.__init__")
+    names = [a.arg for a in init.args.args]
+    if names != ["self", "digest", "key"] or len(init.args.defaults) != 1 or not (
+            isinstance(init.args.defaults[0], ast.Constant) and init.args.defaults[0].value is None):
+        raise Untranslatable("RSASigner.__init__ signature is not (self, digest, key=None)")
+    items = []
+    for k, v in zip(d.keys, d.values):
+        if k is None:
+            raise Untranslatable("** in SIGNER_ALGS")
+        uri = _const_eval(xtree, k)
+        ok = (isinstance(v, ast.Call) and isinstance(v.func, ast.Name) and v.func.id == "RSASigner" and len(v.args) == 1
+              and not v.keywords and isinstance(v.args[0], ast.Call) and not v.args[0].args and not v.args[0].keywords
+              and isinstance(v.args[0].func, ast.Attribute) and isinstance(v.args[0].func.value, ast.Attribute)
+              and v.args[0].func.value.attr == "hashes")
+        if not ok:
+            raise Untranslatable("SIGNER_ALGS[%s] is not RSASigner(<...>.hashes.NAME())" % uri)
+        items.append("(%s, %s)" % (cstr(uri), rsasigner_obj("(PStr %s)" % cstr(v.args[0].func.attr), "PNone")))
+    return "(PObj [%s])" % "; ".join(items)
+
+
+def rsasigner_obj(digest, key):
+    return '(PObj [("__class__", PStr "RSASigner"); ("key", %s); ("digest", %s)])' % (key, digest)
+
+
+def _default_is_none(path, qualname, param):
+    """the translator does not use default values: a call that leaves `param` out is given PNone, which is only
+    right while the source says `param=None`"""
+    import ast
+    from harness.py2coq2 import Untranslatable, find_function
+
+    fn = find_function(_module_tree(path), qualname)
+    args = fn.args.args
+    defaults = [None] * (len(args) - len(fn.args.defaults)) + list(fn.args.defaults)
+    for a, dflt in zip(args, defaults):
+        if a.arg == param:
+            if isinstance(dflt, ast.Constant) and dflt.value is None:
+                return
+            break
+    raise Untranslatable("%s: default of %s is not None" % (qualname, param))
+
+
+def _pinned(path, qualname, expected):
+    """constructors the specs below replace by an object display: their text (ast.dump of the body) must be the
+    pinned one, else the function that uses the display is untranslatable"""
+    import ast
+    from harness.py2coq2 import Untranslatable, find_function
+
+    fn = find_function(_module_tree(path), qualname)
+    got = [ast.unparse(st) for st in fn.body if not (isinstance(st, ast.Expr) and isinstance(st.value, ast.Constant))]
+    if got != expected:
+        raise Untranslatable("%s no longer reads %r" % (qualname, expected))
+
+
+def _guarded(*checks):
+    """spec['calls'] entries are evaluated at translation time: run the source guards then (fail-closed)"""
+    def deco(build):
+        def wrapped(*a):
+            for c in checks:
+                c()
+            return build(*a)
+        # keep the arity the translator inspects
+        if build.__code__.co_argcount >= 2:
+            return lambda args, kw: wrapped(args, kw)
+        return lambda args: wrapped(args)
+    return deco
+
+
+def _secctx_obj(a, kw):
+    """SecurityContext(crypto, key_file, cert_file=..., sec_backend=..., ...) as the object __init__ makes of it - the
+    fields the property can see: sec_backend (stored as given), my_cert (read_cert_from_file(cert_file, cert_type),
+    cert_type left at "pem"), key_file / cert_file; guarded by the pinned statements of SecurityContext.__init__"""
+    import ast
+    from harness.py2coq2 import Untranslatable, find_function
+
+    fn = find_function(_module_tree(_src("sigver.py")), "SecurityContext.__init__")
+    body = [ast.unparse(st) for st in fn.body]
+    for need in ("self.crypto = crypto", "self.sec_backend = sec_backend", "self.key_file = key_file", "self.cert_file = cert_file",
+                 "self.my_cert = read_cert_from_file(cert_file, cert_type)", "self.metadata = metadata"):
+        if body.count(need) != 1:
+            raise Untranslatable("SecurityContext.__init__ no longer has exactly one %r" % need)
+    for st in ast.walk(fn):
+        if isinstance(st, (ast.Assign, ast.AugAssign)):
+            for t in (st.targets if isinstance(st, ast.Assign) else [st.target]):
+                if isinstance(t, ast.Attribute) and t.attr in ("sec_backend", "my_cert", "crypto", "key_file", "cert_file", "metadata") \
+                        and ast.unparse(st) not in ("self.crypto = crypto", "self.sec_backend = sec_backend", "self.key_file = key_file",
+                                                    "self.cert_file = cert_file", "self.metadata = metadata",
+                                                    "self.my_cert = read_cert_from_file(cert_file, cert_type)"):
+                    raise Untranslatable("SecurityContext.__init__ writes %s elsewhere" % t.attr)
+    names = [x.arg for x in fn.args.args]
+    if names[:3] != ["self", "crypto", "key_file"]:
+        raise Untranslatable("SecurityContext.__init__ positional parameters")
+    if len(a) != 2 or sorted(kw) != sorted(["cert_file", "metadata", "only_use_keys_in_metadata", "cert_handler_extra_class",
+                                            "generate_cert_info", "tmp_cert_file", "tmp_key_file", "validate_certificate",
+                                            "enc_key_files", "encryption_keypairs", "sec_backend", "delete_tmpfiles"]):
+        raise Untranslatable("SecurityContext(...) is called with other arguments than the pinned ones")
+    return ('(py_bind (read_cert %s) (fun my_cert => PObj [("__class__", PStr "SecurityContext"); ("crypto", %s); '
+            '("sec_backend", %s); ("key_file", %s); ("cert_file", %s); ("my_cert", my_cert); ("metadata", %s); '
+            '("enc_key_files", %s)]))' % (kw["cert_file"], a[0], kw["sec_backend"], a[1], kw["cert_file"], kw["metadata"],
+                                          kw["enc_key_files"]))
+
+
+def src2_items():
+    """[(path, qualname, spec)] for harness.py2coq2: the decision functions of the anchored code that Model.v mirrors.
+    External calls (RSA signing / verification, urlencode, DEFLATE+base64, file reads, the xmlsec1 wrapper) are extra
+    parameters (Section variables of C20/Source2.v); the module tables SIGNER_ALGS / SIG_ALLOWED_ALG / REQ_ORDER /
+    RESP_ORDER are read from the source text."""
+    from harness.py2coq2 import cstr
+
+    sig, pack, conf = _src("sigver.py"), _src("pack.py"), _src("config.py")
+    F1, F2, F3, F4 = "pyval -> pyval", "pyval -> pyval -> pyval", "pyval -> pyval -> pyval -> pyval", \
+        "pyval -> pyval -> pyval -> pyval -> pyval"
+
+    def order(name):
+        tree = _module_tree(sig)
+        return "(PList [%s])" % "; ".join("PStr %s" % cstr(x) for x in
+                                          [_const_eval(tree, e) for e in _module_assign(tree, name).elts])
+
+    def lazy(f):       # a table that cannot be read makes the function untranslatable, not the harness crash
+        class L(dict):
+            def __init__(self, fs):
+                dict.__init__(self, {k: None for k in fs})
+                self.fs = fs
+
+            def __getitem__(self, k):
+                return self.fs[k]()
+
+            def __contains__(self, k):
+                return k in self.fs
+        return L(f)
+
+    mk_signer = _guarded(lambda: _pinned(sig, "RSASigner.__init__", ["Signer.__init__(self, key)", "self.digest = digest"]),
+                         lambda: _pinned(sig, "Signer.__init__", ["self.key = key"]))(
+        lambda a: rsasigner_obj(a[0], a[1]))
+    mk_crypto = _guarded(lambda: _pinned(sig, "RSACrypto.__init__", ["self.key = key"]))(
+        lambda a: '(PObj [("__class__", PStr "RSACrypto"); ("key", %s)])' % a[0])
+    get_signer1 = _guarded(lambda: _default_is_none(sig, "RSACrypto.get_signer", "sigkey"))(
+        lambda a: "(src2_get_signer v_backend %s PNone)" % a[0])
+    sign1 = _guarded(lambda: _default_is_none(sig, "RSASigner.sign", "key"))(
+        lambda a: "(src2_sign key_sign v_signer %s PNone)" % a[0])
+    return [
+        (sig, "RSACrypto.get_signer", {
+            "name": "src2_get_signer", "params": ["self", "sigalg", "sigkey"],
+            "globals": lazy({"SIGNER_ALGS": signer_algs_term}), "calls": {"RSASigner": mk_signer}}),
+        (sig, "RSASigner.sign", {
+            "name": "src2_sign", "params": ["self", "msg", "key"], "extra_params": [("key_sign", F3)],
+            "calls": {"saml2.cryptography.asymmetric.key_sign": lambda a: "(key_sign %s %s %s)" % tuple(a)}}),
+        (sig, "RSASigner.verify", {
+            "name": "src2_verify", "params": ["self", "msg", "sig", "key"], "extra_params": [("key_verify", F4)],
+            "calls": {"saml2.cryptography.asymmetric.key_verify": lambda a: "(key_verify %s %s %s %s)" % tuple(a)}}),
+        (pack, "http_redirect_message", {
+            "name": "src2_http_redirect_message",
+            "params": ["message", "location", "relay_state", "typ", "sigalg", "sign", "backend"],
+            "extra_params": [("key_sign", F3), ("urlencode", F1), ("deflate_b64", F1), ("add_query", F2), ("b64encode", F1),
+                             ("str_encode", F2)],
+            "globals": lazy({"REQ_ORDER": lambda: order("REQ_ORDER"), "RESP_ORDER": lambda: order("RESP_ORDER"),
+                             "SIG_ALLOWED_ALG": sig_allowed_term}),
+            "calls": {"urlencode": lambda a: "(urlencode %s)" % a[0],
+                      "add_query": lambda a: "(add_query %s %s)" % (a[0], a[1]),
+                      "deflate_and_base64_encode": lambda a: "(deflate_b64 %s)" % a[0],
+                      "base64.b64encode": lambda a: "(b64encode %s)" % a[0],
+                      "string.encode": lambda a: "(str_encode v_string %s)" % a[0],
+                      "backend.get_signer": get_signer1, "signer.sign": sign1}}),
+        (conf, "Config.getattr", {"name": "src2_config_getattr", "params": ["self", "attr", "context"]}),
+        (sig, "security_context", {
+            "name": "src2_security_context", "params": ["conf"], "returns_state": ["conf"], "attr_errors": True,
+            "extra_params": [("import_key", F1), ("read_cert", F1), ("path_exists", F1), ("find_xmlsec", F1),
+                             ("xmlsec_backend", F2)],
+            "exc_parents": {"SigverError": ["SAMLError", "Exception"], "SAMLError": ["Exception"]},
+            "calls": {"get_xmlsec_binary": lambda a: "(find_xmlsec %s)" % a[0],
+                      "os.path.exists": lambda a: "(path_exists %s)" % a[0],
+                      "err_msg.format": lambda a, kw: '(PStr "")',
+                      "_get_xmlsec_cryptobackend": lambda a, kw: "(xmlsec_backend %s %s)" % (a[0], kw["delete_tmpfiles"]),
+                      "conf.getattr": lambda a: "(src2_config_getattr v_conf %s %s)" % (a[0], a[1]),
+                      "import_rsa_key_from_file": lambda a: "(import_key %s)" % a[0],
+                      "RSACrypto": mk_crypto,
+                      "CryptoBackendXMLSecurity": lambda a: '(PObj [("__class__", PStr "CryptoBackendXMLSecurity")])',
+                      "SecurityContext": _secctx_obj}}),
+    ]
+
+
+def regenerate_tables(ctx):
+    """translator v2: the functions of src2_items() as they read NOW -> coq/gen/C20Src2.v (C20/Source2.v: theorems)"""
+    from harness import common, py2coq2
+
+    return py2coq2.regenerate(os.path.join(common.GEN, "C20Src2.v"), src2_items())
+
 
 KEYNAMES = ["sp", "idp", "idp2", "other", "attacker"]
 KID0 = 10  # key pair i is called 10+i on the Coq side (not to be confused with entity / algorithm numbers)
@@ -640,12 +924,21 @@ HOWS = ["overwrite", "rename", "symlink"]
 
 def deploy_ents(deploy):
     """(kind, key pair installed at the entity's path when it is built) per entity, in creation order"""
-    fs, ents = {}, []
+    fs, ents, confs = {}, [], []
     for st in deploy:
         if st[0] == "install":
             fs[st[1]] = st[2]
         elif st[0] == "create":
             ents.append([st[2], fs[st[1]]])
+        elif st[0] == "conf":
+            _, p, kind, _eid, how, parent = st
+            if how == 3:
+                confs[parent][1] = p
+            else:
+                confs.append([kind, p])
+        elif st[0] == "build":
+            kind, p = confs[st[1]]
+            ents.append([kind, fs[p]])
     return ents
 
 
@@ -719,6 +1012,55 @@ def _create(root, p, kind, eidmode, n):
     return sv.RSACrypto(sv.import_rsa_key_from_file(key_file)), _cert_body(cert_file)
 
 
+def _paths(root, p):
+    return os.path.join(root, "p%d.key" % p), os.path.join(root, "p%d.pem" % p)
+
+
+def _eid(p, kind, eidmode, n):
+    return "https://e.example.org/path%d" % p if eidmode == 0 else "https://c%d.example.org/%s" % (n, kind)
+
+
+def _mkconf(root, st, confs):
+    """configuration OBJECTS have a life of their own.  st = ["conf", p, kind, eidmode, how, parent];
+    confs = list of [kind, Config object, dict it was loaded from]; how 3 re-points confs[parent] and makes no object"""
+    from saml2.config import IdPConfig, SPConfig
+    import copy
+
+    _, p, kind, eidmode, how, parent = st
+    key_file, cert_file = _paths(root, p)
+    if how == 0:
+        d = (world.sp_config if kind == "sp" else world.idp_config)(key_file=key_file, cert_file=cert_file,
+                                                                   entityid=_eid(p, kind, eidmode, len(confs)))
+        env.install_standin()
+        confs.append([kind, (SPConfig if kind == "sp" else IdPConfig)().load(d), d])
+        return
+    pkind, pconf, pdict = confs[parent]
+    assert pkind == kind
+    if how == 1:        # the idiom of tests/test_39_metadata.py: copy the Config, give it its own identity and key pair
+        c = copy.copy(pconf)
+        c.key_file, c.cert_file = key_file, cert_file
+        if eidmode:
+            c.entityid = _eid(p, kind, eidmode, len(confs))
+        confs.append([kind, c, pdict])
+    elif how == 2:      # the dict that served before is updated and loaded again
+        pdict["key_file"], pdict["cert_file"] = key_file, cert_file
+        if eidmode:
+            pdict["entityid"] = _eid(p, kind, eidmode, len(confs))
+        confs.append([kind, (SPConfig if kind == "sp" else IdPConfig)().load(pdict), pdict])
+    else:               # the Config object itself is re-pointed (key roll-over without restart)
+        pconf.key_file, pconf.cert_file = key_file, cert_file
+        if eidmode:
+            pconf.entityid = _eid(p, kind, eidmode, len(confs))
+
+
+def _build(kind, conf):
+    from saml2.client import Saml2Client
+    from saml2.server import Server
+
+    e = (Saml2Client if kind == "sp" else Server)(config=conf)
+    return e, e.sec.my_cert
+
+
 _certid = {}
 
 
@@ -753,7 +1095,7 @@ def observe_pool(case):
     ensure_refs(sorted(msgs))
     n = len(workers)
     results = [[] for _ in jobs]
-    ents, kinds, certs, fixture_keys = [], [], [], []
+    ents, kinds, certs, fixture_keys, confs = [], [], [], [], []
     s = Sched(n, case["gates"])
     s.inline.add(0)
     s.done[0] = True
@@ -810,6 +1152,17 @@ def observe_pool(case):
                 ents.append(e)
                 kinds.append(st[2])
                 certs.append(body_)
+            elif st[0] == "conf":
+                _mkconf(root, st, confs)
+            elif st[0] == "build":
+                e, body_ = _build(confs[st[1]][0], confs[st[1]][1])
+                ents.append(e)
+                kinds.append(confs[st[1]][0])
+                certs.append(body_)
+            elif st[0] == "ctx":
+                import saml2.sigver as sv
+
+                sv.security_context(confs[st[1]][1])      # per message in response.py; the result is dropped
             else:
                 run_job(0, st[1])
 
@@ -1068,7 +1421,13 @@ def random_deployment_case(rng):
             n_ent += 1
         elif n_ent:
             deploy.append(["call-ent", rng.randrange(n_ent)])
+    return finish_random_deployment(rng, "deploy-random", deploy)
+
+
+def finish_random_deployment(rng, tag, deploy):
+    """jobs (one signature per entity + the main thread's calls in the middle of the script), OS threads, schedule"""
     ents = deploy_ents([st for st in deploy if st[0] != "call-ent"])
+    n_ent = len(ents)
     a = rng.choice([0, 2, 4])
     jobs = [T(e, [S(a, rng.randrange(MAXMSG))], "pack" if ents[e][0] == "raw" or rng.random() < 0.3 else "entity")
             for e in range(n_ent)]
@@ -1087,9 +1446,103 @@ def random_deployment_case(rng):
     for j in order:
         workers[1 + rng.randrange(n_w)].append(j)
     gates = rng.choice([ENTRY, ALL, ["gx", "se"], ["ge"]])
-    c = pool_case("deploy-random", deploy, gates, jobs, workers, [], False)
+    c = pool_case(tag, deploy, gates, jobs, workers, [], False)
     c["sched"] = pool_sched(rng, c)
     return c
+
+
+def lineage_cases(ctx):
+    """configuration OBJECTS: the Config an entity is built from is derived from the Config (or the dict) of an entity
+    that lives in the same process - copy.copy + own key_file/cert_file (tests/test_39_metadata.py), reload of the
+    updated dict, the very object re-pointed - before or after the parent entity was built, towards another path, the
+    same path after a roll-over, or the same path unchanged.  Complete over {Saml2Client, Server} x {copy, dict reload,
+    re-point} x {derived after / before the parent entity is built} x {other path, same path rolled over, same path
+    same pair}; seeded: security_context(parent) called in between (what response.py does per message), the parent
+    has / has not signed before, same / own entityid, chains, random scripts.  All entities then sign concurrently."""
+    rng = ctx.rng
+    out = []
+    P, Q, R = 0, 1, 2
+    for kind in ("sp", "idp"):
+        for how in (1, 2, 3):
+            for after in (True, False):
+                for target in ("other", "rolled", "same"):
+                    ka, kb, kc = rng.sample(range(5), 3)
+                    eid = rng.randrange(2)
+                    d = [["install", P, ka, 5000, 0], ["install", Q, kb, 5000, 0], ["conf", P, kind, 1, 0, 0]]
+                    to = Q if target == "other" else P
+                    roll = [["install", P, kc, 5000, rng.randrange(3)]] if target == "rolled" else []
+                    ctxcall = [["ctx", 0]] if rng.random() < 0.5 else []
+                    if how == 3:
+                        if after:
+                            d += [["build", 0]] + ([["call", 0]] if rng.random() < 0.5 else []) + ctxcall + roll
+                            d += [["conf", to, kind, eid, 3, 0], ["build", 0]]
+                        else:       # there and back again before / between the builds
+                            d += ctxcall + roll + [["conf", to, kind, eid, 3, 0], ["build", 0], ["conf", Q if to == P else P, kind, 0, 3, 0],
+                                                   ["build", 0]]
+                    elif after:
+                        d += [["build", 0]] + ([["call", 0]] if rng.random() < 0.5 else []) + ctxcall + roll
+                        d += [["conf", to, kind, eid, how, 0], ["build", 1]]
+                    else:
+                        d += ctxcall + roll + [["conf", to, kind, eid, how, 0]]
+                        d += [["build", 1], ["build", 0]] if rng.random() < 0.5 else [["build", 0], ["build", 1]]
+                    share = [0, 1] if rng.random() < 0.3 else None
+                    out.append(rollover_case(rng, "lineage-%s" % ("copy", "copy", "reload", "repoint")[how], d, share=share))
+    # chains: A, B derived from A, C derived from B - each with its own path and pair; the root is re-pointed last
+    for kind in ("sp", "idp"):
+        for _ in range(3 if ctx.thorough else 1):
+            ka, kb, kc, kd = rng.sample(range(5), 4)
+            h1, h2 = rng.choice([1, 2]), rng.choice([1, 2])
+            d = [["install", P, ka, 5000, 0], ["install", Q, kb, 5000, 0], ["install", R, kc, 5000, 0],
+                 ["conf", P, kind, 1, 0, 0], ["build", 0], ["conf", Q, kind, 1, h1, 0], ["build", 1], ["ctx", 1],
+                 ["conf", R, kind, 1, h2, 1], ["build", 2], ["install", P, kd, 5000, rng.randrange(3)], ["conf", P, kind, 0, 3, 1],
+                 ["build", 1], ["create", R, "raw", 1]]
+            out.append(rollover_case(rng, "lineage-chain", d, share=[1, 3]))
+        # one Config object walks over the pairs k0, k1, k0 (roll-over and roll-back by re-pointing); an entity after each
+        k0, k1 = rng.sample(range(5), 2)
+        d = [["install", P, k0, 5000, 0], ["install", Q, k1, 5000, 0], ["conf", P, kind, 0, 0, 0], ["build", 0],
+             ["conf", Q, kind, 0, 3, 0], ["build", 0], ["conf", P, kind, 0, 3, 0], ["build", 0]]
+        out.append(rollover_case(rng, "lineage-repoint-back", d))
+    for _ in range(500 if ctx.thorough else 16):
+        out.append(random_lineage_case(rng))
+    return out
+
+
+def random_lineage_case(rng):
+    n_build = rng.randint(2, 4)
+    paths = [0, 1, 2][:rng.randint(2, 3)]
+    deploy, fs, confs, n_ent = [], {}, [], 0      # confs: [kind, path]
+    kind = rng.choice(["sp", "idp"])              # one kind per script: a copy keeps the class of its origin
+    for p in paths:
+        fs[p] = rng.randrange(5)
+        deploy.append(["install", p, fs[p], 5000, rng.randrange(3)])
+    guard = 0
+    while n_ent < n_build and guard < 60:
+        guard += 1
+        r = rng.random()
+        if r < 0.12:
+            p = rng.choice(paths)
+            fs[p] = rng.randrange(5)
+            deploy.append(["install", p, fs[p], 5000 + rng.choice([0, 0, 0, 1, 3600, -3600]), rng.randrange(3)])
+        elif r < 0.4 or not confs:
+            how = rng.choice([0, 1, 1, 2, 3, 3]) if confs else 0
+            parent = rng.randrange(len(confs)) if confs else 0
+            p = rng.choice(paths)
+            deploy.append(["conf", p, kind, rng.randrange(2), how, parent])
+            if how == 3:
+                confs[parent][1] = p
+            else:
+                confs.append([kind, p])
+        elif r < 0.75:
+            deploy.append(["build", rng.randrange(len(confs))])
+            n_ent += 1
+        elif r < 0.85:
+            deploy.append(["ctx", rng.randrange(len(confs))])
+        elif r < 0.92:
+            deploy.append(["create", rng.choice(paths), "raw", 1])
+            n_ent += 1
+        elif n_ent:
+            deploy.append(["call-ent", rng.randrange(n_ent)])
+    return finish_random_deployment(rng, "lineage-random", deploy)
 
 
 def generate(ctx):
@@ -1150,7 +1603,7 @@ def generate(ctx):
     out += fine_cases(ctx)
     # building entities costs 40-100 ms each (RSA key parsing): the deployment cases are spread evenly over the list so
     # that the chunks of the fork pool stay balanced (the order of the cases means nothing)
-    dep = deployment_cases(ctx)
+    dep = deployment_cases(ctx) + lineage_cases(ctx)
     step = max(1, len(out) // (len(dep) + 1))
     for i, c in enumerate(dep):
         out.insert(min(len(out), (i + 1) * step + i), c)
@@ -1286,6 +1739,12 @@ def coq_case(case, obs):
                 steps.append("DInstall %d %d %d %d" % (st[1], KID0 + st[2], st[3], st[4]))
             elif st[0] == "create":
                 steps.append("DCreate %d" % st[1])
+            elif st[0] == "conf":
+                steps.append("DConf %d %d %d" % (st[1], st[4], st[5]))
+            elif st[0] == "build":
+                steps.append("DBuild %d" % st[1])
+            elif st[0] == "ctx":
+                steps.append("DCtx %d" % st[1])
             else:
                 steps.append("DCall %d" % st[1])
         trace = "[%s]" % "; ".join("(%d, %s)" % (t, GATE_COQ[g]) for t, g in obs["trace"])
@@ -1319,7 +1778,8 @@ def nontrivial(case, obs):
             if st[0] == "install":
                 rolled = rolled or st[1] in seen
                 seen.add(st[1])
-        if not (shared or rolled):
+        derived = any(st[0] == "conf" and st[4] != 0 for st in case["deploy"])
+        if not (shared or rolled or derived):
             return None
         cfg = hashlib.sha1(repr((case["deploy"], case["gates"], case["threads"], case["workers"])).encode()).hexdigest()[:10]
         return [cfg, case["sched"]]
@@ -1361,6 +1821,12 @@ def histogram(cases, observed):
                         rel = "same-mtime" if x == y else ("later" if y > x else "earlier")
                         h["deploy"]["replace:" + rel] = h["deploy"].get("replace:" + rel, 0) + 1
                 h["deploy"]["entities_built"] = h["deploy"].get("entities_built", 0) + len(c["ents"])
+                for st in c["deploy"]:
+                    if st[0] == "conf":
+                        key = "config:" + ("fresh", "copy.copy", "dict-reload", "re-pointed")[st[4]]
+                        h["deploy"][key] = h["deploy"].get(key, 0) + 1
+                    elif st[0] == "ctx":
+                        h["deploy"]["security_context_calls"] = h["deploy"].get("security_context_calls", 0) + 1
         elif c.get("mode") not in ("line", "opcode") and v0_sensitive(c):
             h["window_interleaved(v0_sensitive)"] += 1
         h["gate_events"] += len(o["trace"])
